@@ -239,6 +239,34 @@ fn bulk_case(run: &Run, c: &Case, eps: f64) {
         }
         g.0.pop().unwrap_or(f64::NAN)
     };
+    // many consecutive bulk calls of 32..400 draws (successive calls continue the stream: pooled, they are as good a
+    // sample as single draws)
+    {
+        let b2 = c.bulk.clone().unwrap();
+        let buf2 = std::sync::Mutex::new((Vec::<f64>::new(), 0usize));
+        let pooled2 = move || {
+            let mut g = buf2.lock().unwrap();
+            if g.0.is_empty() {
+                let k = g.1;
+                g.1 += 1;
+                let (n, mat) = [(100, false), (64, false), (33, true), (400, false), (32, false), (257, true)][k % 6];
+                let mut v = b2(n, mat);
+                v.reverse();
+                g.0 = v;
+            }
+            g.0.pop().unwrap_or(f64::NAN)
+        };
+        let what2 = format!("{}{} consecutive bulk draws (sample_n of 32..400, sample_matrix of 33 and 257 rows), values pooled", c.law, c.params);
+        let sv = stream_check(&pooled2, &*c.cdf, c.support, c.decl.discrete, 0xB02C ^ crate::common::run::hash_of(&what2) >> 20);
+        run.case();
+        run.trs(sv.n as u64);
+        run.ok();
+        if sv.fails() {
+            run.violate(&format!("{}/bulk-consecutive/law", c.law), || format!("{}: {}", what2, sv.describe()));
+        } else {
+            run.regime("bulk-consecutive:stream-dkw");
+        }
+    }
     let what = format!("{}{} small bulk draws (sample_n of 1..9, sample_matrix of 1..5 rows), values pooled", c.law, c.params);
     let sv = stream_check(&pooled, &*c.cdf, c.support, c.decl.discrete, 0xB01C ^ crate::common::run::hash_of(&what) >> 20);
     run.case();
